@@ -252,7 +252,23 @@ Definition merge_slot (rec : msg -> msg -> res msg) (f : field) (es ls : slot) :
           end
       | _, _ => Err EDesc
       end
-  | LRequired => Ok ls
+  | LRequired =>
+      (* a required sub-message is merged like an optional one ("fix:" commit 6504315); other required fields keep
+         the latter value *)
+      match f_type f with
+      | TMessage =>
+          match es, ls with
+          | SOne eh ev, SOne lh lv =>
+              match ev, lv with
+              | VMsg (Some em), VMsg (Some lm) => do m <- rec em lm; Ok (SOne lh (VMsg (Some m)))
+              | VMsg (Some em), (VMsg None | VWord 0) => Ok (SOne lh ev)
+              | (VMsg None | VWord 0), _ => Ok ls
+              | _, _ => Err EConfused
+              end
+          | _, _ => Err EDesc
+          end
+      | _ => Ok ls
+      end
   end.
 
 Definition merge_slots rec : list field -> list slot -> list slot -> res (list slot) :=
